@@ -26,3 +26,25 @@ package kw
 //@   loop range(s.v)
 //@     invariant len(out) == len(s.v)
 //@     invariant forall t int :: 0 <= t && t < i ==> out[t] == radd(s.v[t], other.v[t])
+
+// ---------------------------------------------------------------- randomness provenance (C07)
+// Dealing: the random column that defines every share is ONE draw from the caller's reader during this call; its first
+// entry is then overwritten by the secret; the dealer function is built from exactly that column and every
+// shareholder's share is that dealer function's share.
+//@ func (*Scheme).DealAndRevealDealerFunc
+//@   property C07
+//@   uses reader
+//@   modifies shk(prng)
+//@   ensures err == nil ==> ownDraw(box(randomColumn), old(shk(prng)), shk(prng))
+//@   ensures err == nil ==> result1 == res(NewDealerFunc(randomColumn, s.msp), 0)
+//@   ensures streamOf(shk(prng)) == streamOf(old(shk(prng))) && rpos(shk(prng)) >= rpos(old(shk(prng)))
+//@   loop range(s.msp.Shareholders().Iter())
+//@     invariant shk(prng) == shk(param(prng)) && streamOf(shk(prng)) == streamOf(old(shk(prng))) && rpos(shk(prng)) >= rpos(old(shk(prng)))
+
+// A random secret is itself a draw from the same reader, made before the column is drawn.
+//@ func (*Scheme).DealRandomAndRevealDealerFunc
+//@   property C07
+//@   uses reader
+//@   modifies shk(prng)
+//@   ensures err == nil ==> ownDraw(box(value), old(shk(prng)), shk(prng)) && result1 == NewSecret(value)
+//@   ensures streamOf(shk(prng)) == streamOf(old(shk(prng))) && rpos(shk(prng)) >= rpos(old(shk(prng)))
